@@ -32,6 +32,11 @@ def build(t):
         return build(t[1]).dx(t[2])
     if op in ('sq', 'dbl'):           # the same GF object on both sides of the operator
         g = build(t[1]); return g * g if op == 'sq' else g + g
+    if op == 'after':                 # an object that has been used as an operand of a later expression is observed again afterwards
+        g = build(t[2]); h = build(t[3])
+        _ = {'add': lambda: g + h, 'sub': lambda: g - h, 'mul': lambda: g * h, 'radd': lambda: h + g, 'dx': lambda: g.dx(1), 'scale': lambda: g * F(3, 2)}[t[1]]()
+        _[0]                          # (and that expression has been evaluated)
+        return g
     g, c = build(t[1]), pf(t[2])
     return {'scale': lambda: g * c, 'div': lambda: g / c, 'addc': lambda: g + c, 'subc': lambda: g - c}[op]()
 
@@ -46,6 +51,8 @@ def rpn(t, out):
         rpn(t[1], out); out.append(f"dx {t[2]}")
     elif op in ('sq', 'dbl'):
         rpn(t[1], out); out.append("dup"); out.append('mul' if op == 'sq' else 'add')
+    elif op == 'after':
+        rpn(t[2], out)
     else:
         rpn(t[1], out); out.append(f"{op} {fr(pf(t[2]))}")
 
@@ -79,6 +86,7 @@ def plist(t):
     if op == 'dx': return pdx(plist(t[1]), t[2])
     if op == 'sq': return pmul(plist(t[1]), plist(t[1]))
     if op == 'dbl': return padd(plist(t[1]), plist(t[1]))
+    if op == 'after': return plist(t[2])
     a, c = plist(t[1]), pf(t[2])
     if op == 'scale': return [x * c for x in a]
     if op == 'div': return [x / c for x in a]
@@ -123,7 +131,9 @@ def gen(rnd, depth):
     if depth == 0 or rnd.random() < 0.2:
         n = rnd.choice([1, 1, 2, 3, 4, 5])
         return ['cs', [fr(F(rnd.randint(-5, 5), rnd.randint(1, 4))) for _ in range(n)]]
-    op = rnd.choice(['add', 'sub', 'mul', 'mul', 'scale', 'div', 'dx', 'dx', 'addc', 'subc', 'sq', 'sq', 'dbl'])
+    op = rnd.choice(['add', 'sub', 'mul', 'mul', 'scale', 'div', 'dx', 'dx', 'addc', 'subc', 'sq', 'sq', 'dbl', 'after'])
+    if op == 'after':
+        return ['after', rnd.choice(['add', 'sub', 'mul', 'radd', 'dx', 'scale']), gen(rnd, max(depth - 1, 0)), gen(rnd, max(depth - 2, 0))]
     pd = max(depth - 2, 0)              # products count double: their derivatives unfold into 2^k products
     if op in ('sq', 'dbl'):
         return [op, gen(rnd, pd if op == 'sq' else depth - 1)]
@@ -148,7 +158,7 @@ def shapes(d):
             for b in sub:
                 yield [op, a, b]
     for a in sub:
-        yield ['sq', a]; yield ['dbl', a]
+        yield ['sq', a]; yield ['dbl', a]; yield ['after', 'add', a, LEAVES[2]]; yield ['after', 'sub', a, LEAVES[1]]
         yield ['scale', a, '-2/3']; yield ['div', a, '2']; yield ['addc', a, '1/3']; yield ['dx', a, 1]; yield ['dx', a, 2]
 
 
